@@ -47,6 +47,7 @@ def Step.target : Step → Option Nat
   | .sub dst .. => some dst
   | .query .. => none
   | .dups .. => none
+  | .fresh dst .. => some dst
   | .loadPm dst .. => some dst
   | .loadPriority dst .. => some dst
   | .loadReverse dst .. => some dst
